@@ -3412,6 +3412,28 @@ int  bufr_dataset_compressible( BUFR_Dataset *dts )
       int       first = 1;
 
       coderef = bufr_datasubset_get_descriptor( subsetref, j );
+/*
+ * the same holds for a column of associated fields of 63 or 64 bits: bufr_value_nbits() asks 
+ * for 64 bits as soon as the values are 2^63-1 apart
+ */
+      if (!(coderef->flags & FLAG_SKIPPED) && coderef->value && coderef->value->af && 
+          (coderef->encoding.af_nbits > 0) && (coderef->value->af->nbits >= 63))
+         {
+         uint64_t  umin, umax, uval;
+
+         umin = umax = coderef->value->af->bits;
+         for (i = 0; i < nb_subsets ; i++)
+            {
+            subset = bufr_get_datasubset( dts, i );
+            code = bufr_datasubset_get_descriptor( subset, j );
+            if ((code->value == NULL)||(code->value->af == NULL)) continue;
+            uval = code->value->af->bits;
+            if (uval < umin) umin = uval;
+            if (uval > umax) umax = uval;
+            }
+         if ((umax - umin) >= 0x7fffffffffffffffULL)
+            return 0;
+         }
       if ((coderef->flags & FLAG_SKIPPED)||(coderef->encoding.nbits < 64)) 
          continue;
       if ((coderef->encoding.type != TYPE_NUMERIC)&&(coderef->encoding.type != TYPE_CODETABLE)&&
